@@ -153,13 +153,19 @@ PredOK(e, pr) ==
     IF e.k > e.n THEN pr.status = "err"
     ELSE pr.status = "ok" /\ PredValOK(e, Keys(e.metric, e.p, e.X, pr.q), pr.out)
 
-(* the same query rows passed to predict as one matrix: "for every query row" *)
+(* One call of predict on a matrix of e.batchLen rows: the query rows of `preds` repeated
+   cyclically ("for every query row", whatever the number of rows).  Every value returned for
+   query i must be admissible for query i; the distinct values are collected first, so the
+   vote specification is evaluated once per (query, value) and the check is linear in the
+   number of rows. *)
+BatchQueryOK(e, keys, outs) == \A o \in outs : PredValOK(e, keys, o)
+BatchOuts(e, i) == { e.batch.out[j] : j \in { j \in 1..Len(e.batch.out) : (j - 1) % Len(e.preds) = i - 1 } }
 BatchOK(e) ==
     IF e.k > e.n THEN e.batch.status = "err"
     ELSE /\ e.batch.status = "ok"
-         /\ Len(e.batch.out) = Len(e.preds)
-         /\ \A j \in 1..Len(e.preds) :
-               PredValOK(e, Keys(e.metric, e.p, e.X, e.preds[j].q), e.batch.out[j])
+         /\ Len(e.batch.out) = e.batchLen
+         /\ \A i \in 1..Len(e.preds) :
+               BatchQueryOK(e, Keys(e.metric, e.p, e.X, e.preds[i].q), BatchOuts(e, i))
 
 EstClause(e) ==
     IF e.k < 1 THEN (IF e.fit = "err" \/ (e.fit = "ok" /\ \A j \in 1..Len(e.preds) : e.preds[j].status = "err")
@@ -172,7 +178,9 @@ EstClause(e) ==
              ELSE IF ~BatchOK(e) THEN "EstPredictBatch"
              ELSE "ok"
 
-EstFits(e) == Fits(e.weight, Keys(e.metric, e.p, e.X, e.X[1]), e.y) /\ Len(e.preds) >= 0
+(* every query of the event stays inside the 32-bit range of the vote specification *)
+EstFits(e) == (e.k < 1 \/ e.k > e.n) \/
+              \A j \in 1..Len(e.preds) : Fits(e.weight, Keys(e.metric, e.p, e.X, e.preds[j].q), e.y, e.k)
 
 (* more than one k-nearest set exists: the k-th key also occurs beyond position k *)
 KthTied(keys, k) == Cardinality({ i \in 1..Len(keys) : keys[i] <= KthKey(keys, k) }) > k
@@ -238,6 +246,8 @@ HitNames == {"Sweep", "Find", "FindErr", "Radius", "RadiusErr", "RadiusAt", "Tie
              "EstN1clscover", "EstN1regcover", "EstN1clslinear", "EstN1reglinear",
              "EstIdentclscover", "EstIdentregcover", "EstIdentclslinear", "EstIdentreglinear",
              "EstWeightBeforeDistancecls", "EstWeightBeforeDistancereg", "EstViaFields", "EstDefaultMetric",
+             "EstBatchOver256", "EstBatchOver512", "EstTrainOver256", "EstApiinherent", "EstApitrait",
+             "NOver256cover", "NOver256linear", "NOver1024cover", "NOver1024linear",
              "KnnPredict", "ClsPred", "RegPred", "EstErr", "EstUnconstrained", "EstTieAtK", "EstDistance", "EstFail", "EstSkipped"}
 
 Bump(h, d) == [x \in DOMAIN h |-> IF x \in DOMAIN d THEN h[x] + d[x] ELSE h[x]]
@@ -253,6 +263,8 @@ SweepTags(e, c) ==
     {"Sweep", e.backend, e.metric, e.src}
       \cup (IF c = "ok" /\ e.n = 1 THEN {"N1" \o e.backend} ELSE {})
       \cup (IF c = "ok" /\ e.n >= 2 /\ e.ident THEN {"Ident" \o e.backend} ELSE {})
+      \cup (IF c = "ok" /\ e.n > 256 THEN {"NOver256" \o e.backend} ELSE {})
+      \cup (IF c = "ok" /\ e.n > 1024 THEN {"NOver1024" \o e.backend} ELSE {})
 
 SweepStep(e, keys) == LET c == SweepClause(e, keys) IN
     Account(e, c, One(SweepTags(e, c)) @@ SweepHits(e, keys, c))
@@ -284,6 +296,10 @@ EstTags(e, c) ==
       \cup (IF c = "ok" /\ e.k >= 1 /\ e.k <= e.n /\ e.n >= 2 /\ e.ident THEN {"EstIdent" \o e.kind \o e.backend} ELSE {})
       \cup (IF c = "ok" /\ e.k >= 1 /\ e.k <= e.n /\ e.weight = "distance" /\ e.wBeforeD
             THEN {"EstWeightBeforeDistance" \o e.kind} ELSE {})
+      \cup (IF c = "ok" /\ e.k >= 1 /\ e.k <= e.n /\ e.batchLen > 256 THEN {"EstBatchOver256"} ELSE {})
+      \cup (IF c = "ok" /\ e.k >= 1 /\ e.k <= e.n /\ e.batchLen > 512 THEN {"EstBatchOver512"} ELSE {})
+      \cup (IF c = "ok" /\ e.k >= 1 /\ e.k <= e.n /\ e.n > 256 THEN {"EstTrainOver256"} ELSE {})
+      \cup (IF c = "ok" /\ e.fit = "ok" THEN {"EstApi" \o e.api} ELSE {})
       \cup (IF c = "ok" /\ e.viaFields THEN {"EstViaFields"} ELSE {})
       \cup (IF c = "ok" /\ e.defaultMetric THEN {"EstDefaultMetric"} ELSE {})
 
